@@ -154,7 +154,7 @@ class HandlerPrims:
             ev.append(("mem_read", "bytes", args[1], args[2], site))
             return [(OK(W(("membytes", args[1], args[2], mv), 64)), path)]
         if kind == "mem_write_bytes":
-            ev.append(("mem_write", "bytes", args[1], args[2], site))
+            ev.append(("mem_write", "bytes", args[1], I._deref_all(path, args[2]), site))
             path.tags["memver"] = mv + 1
             return [(OK(UNIT), path)]
         if kind == "mem_addr":
